@@ -3184,8 +3184,14 @@ func (t *Topic) replyDelTopic(sess *Session, asUid types.Uid, msg *ClientComMess
 		return t.replyLeaveUnsub(sess, msg, asUid)
 	}
 
-	// This is an indication of a bug.
-	logs.Err.Println("replyDelTopic called by owner (SHOULD NOT HAPPEN!)")
+	// The hub forwards {del topic} here when the requester is not the owner. It takes the owner from
+	// the topic object which is not filled in yet while the topic is being loaded: the owner's request
+	// ends up here. Send it back to the hub which knows the owner now; never leave it unanswered.
+	select {
+	case globals.hub.unreg <- &topicUnreg{rcptTo: t.name, pkt: msg, sess: sess, del: true}:
+	default:
+		sess.queueOut(ErrServiceUnavailableReply(msg, types.TimeNow()))
+	}
 	return nil
 }
 
